@@ -74,14 +74,25 @@ def printed_term(t, ctx):
 
 
 def formula_for(s, ordering):
+    """parsed formulas are shared between executions (parsing dominates the cost); a cached object that no longer holds the
+    terms it was built with (something mutated it in an earlier execution) is discarded, so every execution starts from a
+    correct formula and the execution that mutates it is the one that reports it"""
     from formulaic import Formula
 
     key = (s, ordering)
-    f = _FCACHE.get(key)
-    if f is None:
-        if len(_FCACHE) > 2000:
-            _FCACHE.clear()
-        f = _FCACHE[key] = Formula(s, _ordering=ordering)
+    hit = _FCACHE.get(key)
+    if hit is not None:
+        f, snapshot = hit
+        try:
+            intact = {k: side_terms(v) for k, v in sides_of(f).items()} == snapshot
+        except Exception:
+            intact = False
+        if intact:
+            return f
+    if len(_FCACHE) > 2000:
+        _FCACHE.clear()
+    f = Formula(s, _ordering=ordering)
+    _FCACHE[key] = (f, {k: side_terms(v) for k, v in sides_of(f).items()})
     return f
 
 
@@ -571,9 +582,10 @@ HISTORY_TERMS = [("a",), ("b",), ("a", "b"), ("b", "c"), ("a", "b", "c")]
 HISTORY_OPS = ["del-first", "del-last", "del-slice", "pop", "remove-first", "clear", "append", "insert-front", "setitem-last"]
 
 
-def apply_op(F, op, new_term):
-    """mutate the SimpleFormula through its MutableSequence API; returns False if the operation does not apply"""
-    n = len(F)
+def apply_op(F, op, new_term, n_terms):
+    """mutate the SimpleFormula through its MutableSequence API (without reading it: the caller supplies the current
+    number of terms); returns False if the operation does not apply"""
+    n = n_terms
     if op in ("del-first", "del-last", "del-slice", "pop", "remove-first", "setitem-last") and n == 0:
         return False
     if op == "del-first":
@@ -585,7 +597,7 @@ def apply_op(F, op, new_term):
     elif op == "pop":
         F.pop()
     elif op == "remove-first":
-        F.remove(F[0])
+        F.remove(F[0])  # (reads before it mutates)
     elif op == "clear":
         F.clear()
     elif op == "append":
@@ -604,22 +616,29 @@ def drv_history(c, ctx, col):
     ordering = c.pick(ctx["orderings"])
     wrt = choose_wrt(c, ctx)
     ops = c.seq(HISTORY_OPS, ctx["ops"], 1)
-    via_spec = c.flag()
+    # "no-read": nothing reads the formula (len / iteration / repr / ==) between a mutation and the next differentiate call
+    via_spec, read_first = c.pick([(False, True), (False, False), (True, False)])
     F = Formula(rhs, _ordering=ordering)       # a fresh object: it is mutated below
-    new_term = Formula("a:c - 1")[0]
+    new_term = {"append": Formula("c - 1")[0]}  # a low-degree term appended / a higher-degree term put in front: neither sorts in place
+    new_term = [new_term.get(o, Formula("a:c - 1")[0]) for o in ops]
     ms = ModelSpec.from_spec(F) if via_spec else None
     diff = (lambda: (ms.differentiate(*wrt).formula if via_spec else F.differentiate(*wrt)))
     key = "history :: Formula(%r, _ordering=%r); differentiate(%s); %s; differentiate again%s" % (
-        rhs, ordering, ", ".join(repr(w) for w in wrt), "; ".join(ops), " (through ModelSpec.differentiate)" if via_spec else "")
-    detail = {"formula": rhs, "ordering": ordering, "wrt": list(wrt), "operations": ops, "via_model_spec": via_spec}
+        rhs, ordering, ", ".join(repr(w) for w in wrt), "; ".join(ops), (" (through ModelSpec.differentiate)" if via_spec else "") + ("" if read_first else " (no read in between)"))
+    detail = {"formula": rhs, "ordering": ordering, "wrt": list(wrt), "operations": ops, "via_model_spec": via_spec,
+              "formula_read_between_mutation_and_differentiate": read_first}
     if via_spec and ms.formula is not F:
         col.count("modelspec-copies-formula")
         F = ms.formula
     steps = []
     try:
         for i in range(len(ops) + 1):
-            held = side_terms(F)
-            got = side_terms(diff())
+            if read_first:
+                held = side_terms(F)
+                got = side_terms(diff())
+            else:
+                got = side_terms(diff())
+                held = side_terms(F)
             want = expected_terms(held, wrt)
             steps.append({"held": held, "got": got, "want": want})
             if len(got) != len(want) or any(w is not None and g != w for g, w in zip(got, want)):
@@ -628,7 +647,7 @@ def drv_history(c, ctx, col):
             if side_terms(F) != held:
                 col.violation(key, dict(detail, steps=steps), sig="original-formula-mutated")
                 return
-            if i < len(ops) and not apply_op(F, ops[i], new_term):
+            if i < len(ops) and not apply_op(F, ops[i], new_term[i], n_terms=len(held)):
                 col.count("operation-not-applicable")
                 return
     except Exception as e:
